@@ -4,6 +4,7 @@ import OrsoVerif.Lemmas.EncodingsGen
 import OrsoVerif.Lemmas.EncodingsUnique
 import OrsoVerif.Lemmas.EncodingsDType
 import OrsoVerif.Lemmas.EncodingsMapped
+import OrsoVerif.Lemmas.EncodingsHeap
 /-!
 # C09 — Compressed column encodings are lossless
 
@@ -1074,6 +1075,144 @@ theorem memo_python_eq_mixes_kinds (i2f : Int → UInt64) :
     memoFamily (pyEq i2f) id [] [(.int 1, 2), (.bool true, 1)] = [[.int 1, .int 1], [.int 1]] := by
   simp [memoFamily, memoLookup, pyEq]
 
+/-! ## An expansion is an array of its own
+
+The clauses above speak of contents.  `materialize` hands out an *object*; the property's last clause
+("applying an element-wise function to the stored values and then expanding") is a session on one column
+object, and the repository's own idiom for the function is in place (`constant_col.values *= 2`).  If the
+expansion were a window onto the stored array (`numpy.broadcast_to(self.values, (n,))`: right length, dtype
+and elements), the expansion of the *original* would turn into the expansion of the mapped values the moment
+the function is applied.  `Enc.Heap` / `Enc.materializeAt` model arrays as objects; the `Origin` of each
+`materialize` result is read off the source on every run (`Gen.Encodings.*MaterializeOrigin`). -/
+
+section Fresh
+
+/-- **A fresh expansion is a new array**: its address is not one of the heap before the call, every array that
+existed keeps its content, and it reads the decoded stored values. -/
+theorem fresh_expansion_is_new_array (decode : List α → List α) (h : Heap α) (s : Nat) :
+    (materializeAt .fresh decode h s).2 = .owned h.cells.length ∧
+    (∀ a, a < h.cells.length → (materializeAt .fresh decode h s).1.read a = h.read a) ∧
+    (materializeAt .fresh decode h s).1.deref (materializeAt .fresh decode h s).2 = decode (h.read s) := by
+  rw [materializeAt_fresh]
+  exact ⟨rfl, fun a ha => heap_read_alloc_old h _ a ha, heap_read_alloc_new h _⟩
+
+/-- **A fresh expansion does not follow the column**: after *any* sequence of in-place operations on arrays
+that existed when it was handed out (the stored values, the codes, the indices, earlier expansions) it still
+reads what it read -- the decoded values as they were stored at the time. -/
+theorem fresh_expansion_survives_writes (decode : List α → List α) (h : Heap α) (s : Nat)
+    (ws : List (Nat × List α)) (hws : ∀ w ∈ ws, w.1 < h.cells.length) :
+    ((materializeAt .fresh decode h s).1.writes ws).deref (materializeAt .fresh decode h s).2 = decode (h.read s) := by
+  rw [materializeAt_fresh]
+  show (Heap.writes _ ws).read h.cells.length = _
+  rw [heap_read_writes_off _ ws _ (fun w hw => Nat.ne_of_lt (hws w hw))]
+  exact heap_read_alloc_new h _
+
+/-- **The session of the map clause with a fresh expansion**: the first expansion still is the expansion of the
+original after the stored values were mapped in place, the second is the expansion of the mapped values. -/
+theorem session_fresh (decode : List α → List α) (f : α → α) (h : Heap α) (s : Nat) (hs : s < h.cells.length) :
+    session .fresh decode f h s = (decode (h.read s), decode ((h.read s).map f)) := by
+  simp only [session, materializeAt_fresh, Heap.deref]
+  -- the heap after the first expansion, and after the in-place map
+  have hr1 : (h.alloc (decode (h.read s))).1.read s = h.read s := heap_read_alloc_old h _ s hs
+  have hs1 : s < (h.alloc (decode (h.read s))).1.cells.length := by rw [heap_alloc_length]; omega
+  rw [hr1]
+  have hr2 : ((h.alloc (decode (h.read s))).1.write s ((h.read s).map f)).read s = (h.read s).map f :=
+    heap_read_write_self _ s _ hs1
+  have hl2 : ((h.alloc (decode (h.read s))).1.write s ((h.read s).map f)).cells.length = h.cells.length + 1 := by
+    rw [heap_write_length, heap_alloc_length]
+  rw [hr2, hl2]
+  refine Prod.ext ?_ ?_
+  · show (Heap.alloc _ _).1.read h.cells.length = _
+    rw [heap_read_alloc_old _ _ _ (by rw [hl2]; omega), heap_read_write_ne _ _ _ _ (Nat.ne_of_lt hs)]
+    exact heap_read_alloc_new h _
+  · show (Heap.alloc _ _).1.read (h.cells.length + 1) = _
+    rw [← hl2]
+    exact heap_read_alloc_new _ _
+
+/-- **The session with a window onto the stored array**: both readings are the expansion of the *mapped* values. -/
+theorem session_alias (decode : List α → List α) (f : α → α) (h : Heap α) (s : Nat) (hs : s < h.cells.length) :
+    session .aliasStored decode f h s = (decode ((h.read s).map f), decode ((h.read s).map f)) := by
+  simp only [session, materializeAt, Heap.deref]
+  rw [heap_read_write_self h s _ hs]
+
+/-- The class of change, on the constant column: with `numpy.broadcast_to(self.values, (n,))` (a window, decode =
+the one stored cell repeated `n` times) the expansion of `[v] * n` handed out *before* `values` was mapped in place
+reads `[f v] * n` afterwards -- it no longer reproduces the original whenever `n ≥ 1` and `f v ≠ v`. -/
+theorem alias_expansion_follows_map (f : α → α) (v : α) (n : Nat) (hn : 0 < n) (hf : f v ≠ v) :
+    (session .aliasStored (fun vs => (Np.fullFrom n vs).getD []) f ⟨[[v]]⟩ 0).1 ≠ List.replicate n v := by
+  rw [session_alias _ _ _ _ (by simp)]
+  obtain ⟨m, rfl⟩ : ∃ m, n = m + 1 := ⟨n - 1, by omega⟩
+  simp [Heap.read, Np.fullFrom, List.replicate_succ, hf]
+
+/-- **The caller's edits stay the caller's**: with a fresh expansion, overwriting the expansion leaves the stored
+array as it was, and the next expansion is again the decoded stored values. -/
+theorem edit_session_fresh (decode : List α → List α) (xs : List α) (h : Heap α) (s : Nat) (hs : s < h.cells.length) :
+    editSession .fresh decode xs h s = (h.read s, decode (h.read s)) := by
+  simp only [editSession, materializeAt_fresh, Heap.deref]
+  have hl2 : ((h.alloc (decode (h.read s))).1.write h.cells.length xs).cells.length = h.cells.length + 1 := by
+    rw [heap_write_length, heap_alloc_length]
+  have hr2 : ((h.alloc (decode (h.read s))).1.write h.cells.length xs).read s = h.read s := by
+    rw [heap_read_write_ne _ _ _ _ (Nat.ne_of_gt hs)]
+    exact heap_read_alloc_old h _ s hs
+  rw [hr2, hl2]
+  refine Prod.ext ?_ ?_
+  · show (Heap.alloc _ _).1.read s = _
+    rw [heap_read_alloc_old _ _ _ (by rw [hl2]; omega), hr2]
+  · show (Heap.alloc _ _).1.read (h.cells.length + 1) = _
+    rw [← hl2]
+    exact heap_read_alloc_new _ _
+
+open Gen.Encodings in
+/-- **Every `materialize` of the source hands out an array built anew** (the origins the extractor read off the
+`return` expressions of the working tree: `numpy.array(<list>)`, `self.values[self.encoding]`, `numpy.full(...)` +
+item assignment, `numpy.full(self.length, self.values)`, `numpy.array([value] * self.length)`). -/
+theorem source_expansions_are_fresh :
+    rleMaterializeOrigin = .fresh ∧ dictMaterializeOrigin = .fresh ∧ sparseMaterializeOrigin = .fresh ∧
+    constMaterializeOrigin = .fresh ∧ functionMaterializeOrigin = .fresh := by
+  decide
+
+open Gen.Encodings in
+/-- **The map clause as a session on one column object, on the translated code**: expand, apply `f` to the stored
+values in place, look at the first expansion again, expand again -- the first expansion still is the expansion of
+the original, the second is `f` applied to every element of it (run-length, dictionary, constant columns: the
+translated `materialize` bodies with the origins read off the source; `ls` / `cs` / `n` are the run lengths / codes /
+length the column holds besides its values). -/
+theorem source_map_session (f : α → α) (h : Heap α) (s : Nat) (hs : s < h.cells.length) (ls cs : List Nat) (n : Nat) :
+    session rleMaterializeOrigin (fun vs => (rleMaterialize vs ls).getD []) f h s
+      = ((rleMaterialize (h.read s) ls).getD [], ((rleMaterialize (h.read s) ls).getD []).map f) ∧
+    session dictMaterializeOrigin (fun vs => (dictMaterialize vs cs).getD []) f h s
+      = ((dictMaterialize (h.read s) cs).getD [], ((dictMaterialize (h.read s) cs).getD []).map f) ∧
+    session constMaterializeOrigin (fun vs => (constMaterialize n vs).getD []) f h s
+      = ((constMaterialize n (h.read s)).getD [], ((constMaterialize n (h.read s)).getD []).map f) := by
+  obtain ⟨h1, h2, _, h4, _⟩ := source_expansions_are_fresh
+  obtain ⟨m1, m2, m3⟩ := source_map_commutes f (h.read s) ls cs n
+  rw [h1, h2, h4, session_fresh _ _ _ _ hs, session_fresh _ _ _ _ hs, session_fresh _ _ _ _ hs, m1, m2, m3]
+  refine ⟨?_, ?_, ?_⟩
+  · cases rleMaterialize (h.read s) ls <;> rfl
+  · cases dictMaterialize (h.read s) cs <;> rfl
+  · cases constMaterialize n (h.read s) <;> rfl
+
+open Gen.Encodings in
+/-- **Sparse and function columns, and every encoding under the caller's edits**: with the origins read off the
+source, the first expansion of a session is what was decoded when it was handed out (whatever `decode` is: the
+sparse `materialize` with its dtype decision, the binding's value repeated), and an expansion overwritten by the
+caller changes neither the stored array nor the next expansion. -/
+theorem source_expansions_independent (decode : List α → List α) (f : α → α) (xs : List α) (h : Heap α) (s : Nat)
+    (hs : s < h.cells.length) :
+    (∀ o ∈ [rleMaterializeOrigin, dictMaterializeOrigin, sparseMaterializeOrigin, constMaterializeOrigin,
+        functionMaterializeOrigin],
+      session o decode f h s = (decode (h.read s), decode ((h.read s).map f)) ∧
+      editSession o decode xs h s = (h.read s, decode (h.read s))) := by
+  obtain ⟨h1, h2, h3, h4, h5⟩ := source_expansions_are_fresh
+  intro o ho
+  have : o = .fresh := by
+    simp only [h1, h2, h3, h4, h5, List.mem_cons, List.not_mem_nil, or_false, or_self] at ho
+    exact ho
+  subst this
+  exact ⟨session_fresh decode f h s hs, edit_session_fresh decode xs h s hs⟩
+
+end Fresh
+
 /-! ## Non-vacuity -/
 
 example : (rleEncode (fun a b : Nat => a == b) [3, 3, 5, 3]).values = [3, 5, 3] ∧
@@ -1110,5 +1249,11 @@ example : memoFamily (fun a b : Nat => a == b) (· * 3) [] [(1, 2), (2, 1), (1, 
 
 example : Num.exactInto .i32 .f64 = true ∧ Num.exactInto .i64 .f64 = false ∧ Num.exactInto .f32 .f64 = true ∧
     Num.exactInto .f64 .f32 = false ∧ Num.exactInto .u8 .i8 = false := by decide
+
+/-- a session on a heap holding the stored array of the constant 3 (and another array): the first expansion stays
+`[3, 3]` after `values *= 2`, the second is `[6, 6]`; through a window both read `[6, 6]` -/
+example : session .fresh (fun vs => (Np.fullFrom 2 vs).getD []) (· * 2) ⟨[[7], [3]]⟩ 1 = ([3, 3], [6, 6]) ∧
+    session .aliasStored (fun vs => (Np.fullFrom 2 vs).getD []) (· * 2) ⟨[[7], [3]]⟩ 1 = ([6, 6], [6, 6]) ∧
+    editSession .fresh (fun vs => (Np.fullFrom 2 vs).getD []) [0, 0] (⟨[[7], [3]]⟩ : Heap Nat) 1 = ([3], [3, 3]) := by decide
 
 end C09
